@@ -387,7 +387,8 @@ class ExprMixin:
                 parts.append(('R', g.unit if isinstance(g.unit, (str, bytes)) else id(g.unit), c(g.count)))
             else:
                 parts.append(('O', id(g)))
-        return (s.kind, tuple(parts))
+        c = getattr(s, 'codec', None)
+        return (s.kind, tuple(parts), repr(c) if c is not None else None)
 
     def _sym_equal(self, x, y, node):
         """SymV x compared with y."""
